@@ -90,7 +90,24 @@ def run(ctx):
     lines, meta = [], []
     for i in range(120 if ctx.quick else 1500):
         kind, A = alngen.rand_alignment(rng, False) if i % 10 else alngen.long_row_alignment(rng)
-        if len(A) < 2 or len(A) > 14:
+        if i % 12 == 7:
+            # more than 50 rows of which only rows beyond the 50th carry gaps (whatever decides "is this file an alignment?" must see every row)
+            nrow = rng.choice([52, 60, 75])
+            W_ = rng.choice([30, 40, 61])
+            alpha_ = gen.AA
+            A = []
+            for k in range(nrow):
+                row = gen.rand_seq(rng, alpha_, W_)
+                if k >= 50 + rng.randint(0, 1):
+                    g0 = rng.randrange(W_ - 3)
+                    row = row[:g0] + "-" * rng.randint(1, 3) + row[g0 + 3:]
+                    row = row[:W_].ljust(W_, "-")
+                A.append(("r%02d" % k, row))
+            if not any("-" in r for _, r in A[50:]):
+                continue
+            kind = "protein"
+            ctx.count("late_gap_rows_beyond_50")
+        elif len(A) < 2 or len(A) > 14:
             continue
         A = [(n, r) for n, r in A if True]
         if len(set(n for n, _ in A)) != len(A):
